@@ -67,9 +67,10 @@ static void program_case(unsigned prog, int len, int big_ok) {
     const int prefill = (int)(rng_u64(r) & 3);
     const unsigned mis = (unsigned)(rng_u64(r) & 7);
     // where the buffers of this call live relative to each other is drawn per call as well: separate blocks (half of the
-    // calls), one arena ascending / descending, flush against guard pages, 64 GiB apart, packed back to back
+    // calls), one arena ascending / descending, flush against guard pages, 64 GiB apart (roughly, and exactly: all-zero low bits
+    // in every pointer difference), packed back to back, a few words apart modulo the page size
     {
-      static const int PL[] = {0, 0, 0, 0, 0, 0, 1, 2, 3, 4, 5, 6};
+      static const int PL[] = {0, 0, 0, 0, 0, 0, 0, 1, 2, 3, 4, 5, 6, 7, 8};
       g_case_place = PL[rng_u64(r) % ARRAY_LEN(PL)];
       g_case_aligned = g_case_place == 0 && (rng_u64(r) & 7) == 0;
     }
@@ -165,7 +166,7 @@ static void concurrent_repeat_case(int envi, int native, int T, unsigned rep) {
   if (!case_begin(key, "N=%" PRIu64 " rep=%u", ENVN[envi], rep)) return;
   g_case_aligned = 0;
   env_t* e = env_get(envi, native);
-  int ops[256], nops = 0;
+  int ops[512], nops = 0;
   for (int i = 0; i < N_CAT_OPS; i++) {
     const opdef_t* o = &OPS[i];
     // (*_simple functions are included: the sequential reference run below is their documented warm-up for this dimension)
@@ -274,6 +275,13 @@ void run_C15(void) {
         if (!th && ENVN[envi] > 16384) continue;
         concurrent_repeat_case(envi, native, 4, rep);
       }
+  // long histories of every entry point: equal arguments exactly 2^8 and 2^16 calls apart (per-call counters, stamps, thresholds)
+  for (int oi = 0; oi < N_CAT_OPS; oi++)
+    for (unsigned v = 0; v < (th ? 6u : 2u); v++) {
+      static const uint64_t HB[] = {64, 64, 16, 256, 1024, 8};
+      const int cfg = (v >= 4 && (OPS[oi].flags & (OPF_FFT64 | OPF_TABLE)) && !(OPS[oi].flags & OPF_AVX)) ? DISP_GENERIC : DISP_NATIVE;
+      ops_history_case("", OPS[oi].name, HB[v], (v & 1) ? HB[v] : 2, cfg, v, "long_history_calls");
+    }
   for (int i = 0; i < NENV; i++)
     for (int n = 0; n < 2; n++)
       if (ENVS[i][n]) env_destroy(ENVS[i][n]);
